@@ -127,7 +127,8 @@ PROPS["C03"] = Prop(jobs=6,
 )
 PROPS["C04"] = Prop(jobs=6,
     harnesses=_cbfam("c04_step", "one step of every operation from an arbitrary state obeys the documented machine", Q_ALL, timeout=900)
-            + _cbfam("c04_metrics", "metrics() agrees with state and window", {("count", 2), ("time", 2)}, timeout=600),
+            + _cbfam("c04_metrics", "metrics() agrees with state and window", {("count", 2), ("time", 2)}, timeout=600)
+            + [_cb("c04_custom_classifier_recording", "custom classifier: one outcome recorded per admitted call, failure iff the classifier says so", "one admitted call, any inner outcome", profile="service", mem_gb=24, timeout=1800)],
     functions=["Circuit::{record_success,record_failure,try_acquire,force_open,force_closed,reset,transition_to,evaluate_window,metrics,record_count_based,cleanup_old_records,time_based_stats}"],
     bounds=CB_BOUND, outside="window sizes > 3, more than 2 records in a time-based pre-state",
     assumptions=["Instant::now stubbed by a virtual clock; catch_unwind stubbed", "representation invariant as written in any_circuit()"],
@@ -137,6 +138,7 @@ PROPS["C09"] = Prop(jobs=6,
         _cb("c09_overlapping_count", "KNOWN-FINDING witness: all permits held by in-flight trial calls, one more caller must be rejected",
             "arbitrary half-open pre-state, any config", expect="known", timeout=600),
         _cb("c09_overlapping_time", "same, time-based window", "as above", expect="known", timeout=600),
+        _cb("c04_custom_classifier_recording", "every admitted (trial) call records exactly one outcome, classified by the configured classifier", "one admitted call, any inner outcome", profile="service", mem_gb=24, timeout=1800),
     ] + _cbfam("c04_step", "inductive step: half-open admits iff completed trial calls < permitted; success counts, closes at permitted; failure re-opens",
                {("count", 0), ("count", 2), ("time", 0)}, timeout=900),
     functions=["Circuit::{try_acquire (HalfOpen branch), record_success, record_failure, transition_to}"],
@@ -265,7 +267,7 @@ PROPS["C15"] = Prop(harnesses=_rl_h, functions=PROPS["C02"].functions, bounds=PR
 # C16 reconnect
 # ---------------------------------------------------------------------------
 _r16 = lambda n, what, **kw: H("verif_kani::c16::" + n, RECONNECT, what,
-    "one request, <= 4 polls, the clock advanced by exactly the policy delay between them (early polls: harness not_connected_while_failing); max_attempts None or 0..=1; inner outcomes symbolic (ok / reconnectable / other error); another request may mark the shared state connected before any poll",
+    "one request, <= 3 polls, the clock advanced by exactly the policy delay between them (early polls: harness not_connected_while_failing); max_attempts None or 0..=1; inner outcomes symbolic (ok / reconnectable / other error); another request may mark the shared state connected before any poll",
     models=("tokio", "rand"), profile="service", playback=False, mem_gb=24, timeout=2400, **kw)
 PROPS["C16"] = Prop(
     harnesses=[_r16("not_connected_while_failing", "state is not Connected, and no call is issued, during the back-off and while the retried call is in flight"),
@@ -274,8 +276,8 @@ PROPS["C16"] = Prop(
                _r16("fixed_policy_no_retry", "fixed policy, retry_on_reconnect off"),
                _r16("no_policy", "policy None", tiers=("thorough",))],
     functions=["tower_resilience_reconnect::service::{ReconnectService::{new,poll_ready,call},ReconnectFuture::poll}", "ReconnectConfig::should_reconnect", "(ReconnectPolicy::delay_for_attempt is scripted here; its values are C14)", "ReconnectState::{mark_connected,mark_disconnected,mark_reconnecting,state}"],
-    bounds="one request, <= 4 polls, max_attempts <= 1 or unlimited (then bounded by the 4 polls), delays <= 10 s",
-    outside="exponential/jittered policies here (their delays are C14); more than 4 polls; u32 overflow of the attempt counter after 2^32 failures with unlimited attempts",
+    bounds="one request, <= 3 polls, max_attempts <= 1 or unlimited (then bounded by the 3 polls), delays <= 10 s",
+    outside="exponential/jittered policies here (their delays are C14); more than 3 polls; u32 overflow of the attempt counter after 2^32 failures with unlimited attempts",
     assumptions=["tokio::time::Sleep replaced by the virtual-clock model; Instant::now -> virtual clock", "the predicate sees InnerErr codes (only error type in the harness)",
                  "ReconnectPolicy::delay_for_attempt stubbed by a script returning a harness-chosen delay per attempt (None for 'no policy')"],
 )
@@ -373,7 +375,7 @@ _r5 = lambda n, what, **kw: H("verif_kani::c05::" + n, RETRY, what,
     models=("tokio", "rand"), profile="service", playback=False, mem_gb=24, timeout=2400, **kw)
 PROPS["C05"] = Prop(
     harnesses=[_r5("waits_full_backoff", "still pending and no retry at any instant before the backoff elapsed; retry exactly when it has"),
-               _r5("plain", "no predicate, no budget"), _r5("with_predicate", "retry predicate"), _r5("with_budget", "retry budget"),
+               _r5("plain", "no predicate, no budget"), _r5("with_predicate", "retry predicate", tiers=("thorough",)), _r5("with_budget", "retry budget"),
                _r5("with_budget_predicate_dynamic_max", "budget + predicate + per-request max_attempts", tiers=("thorough",))],
     functions=["tower_resilience_retry::Retry::{new,poll_ready,call}", "RetryPolicy::{should_retry,next_backoff}", "MaxAttemptsSource::get_max_attempts"],
     bounds="one request, max_attempts <= 3, <= 3 inner outcomes, backoff <= 10 s per retry",
@@ -398,6 +400,9 @@ PROPS["C08"] = Prop(
              "max_budget <= 2^20, amounts 1..=8, arbitrary pre-balance, <= 2 interferences on balance and limit cells", timeout=600),
         _c08("aimd_deposit_linearizable", "AimdBudget::deposit: v' = min(v+amount, L), L in [min,max], on the value in the cell",
              "as above", timeout=600),
+        H("aimd::verif_kani_in_aimd_rg::aimd_every_write_in_bounds_under_interference", "tower-resilience-core",
+          "guarantee side of the rely used above: every write of the AIMD limit (the budget's dynamic cap) stays in [min,max] under interference",
+          "any config min <= max <= 2^32; <= 2 interfering writes", features=("verif-hooks",), playback=False, timeout=900),
     ],
     functions=["tower_resilience_retry::budget::TokenBucketBudget::{new,try_withdraw,deposit,balance}",
                "tower_resilience_retry::budget::AimdBudget::{new,try_withdraw,deposit,current_max}",
@@ -429,9 +434,8 @@ def _retier(h, tiers):
     h2 = _copy.copy(h)
     h2.tiers = tiers
     return h2
-_c20refs_quick = [_ref("C01", "one_call_any_availability"), _ref("C03", "c03_call_wiring"), _ref("C17", "strategy_value"), _ref("C13", "in_flight_exact_one_call"),
-                  _ref("C11", "dropped_waiter_is_harmless"), _ref("C02", "call_wiring")]
-_c20refs_thorough = [_ref("C03", "c03_call_wiring_with_fallback"), _ref("C06", "cancel_fixed_timeout"), _ref("C06", "no_cancel_fixed_timeout"), _ref("C19", "one_request_all_rolls"),
+_c20refs_quick = [_ref("C03", "c03_call_wiring"), _ref("C17", "strategy_value"), _ref("C13", "in_flight_exact_one_call"), _ref("C02", "call_wiring")]
+_c20refs_thorough = [_ref("C01", "one_call_any_availability"), _ref("C11", "dropped_waiter_is_harmless"), _ref("C03", "c03_call_wiring_with_fallback"), _ref("C06", "cancel_fixed_timeout"), _ref("C06", "no_cancel_fixed_timeout"), _ref("C19", "one_request_all_rolls"),
                      _ref("C05", "plain"), _ref("C16", "custom_policy_predicate_retry"), _ref("C12", "parallel_mode_two_attempts"), _ref("C11", "leader_waiter_and_other_key")]
 PROPS["C20"] = Prop(
     harnesses=_c20new + [_retier(h, ("quick", "thorough")) for h in _c20refs_quick] + [_retier(h, ("thorough",)) for h in _c20refs_thorough],
